@@ -193,18 +193,21 @@ def _c08_vm_sample(d, tier, coq, build, want=200):
     cands = []
     with open(os.path.join(d, "cases.txt")) as f:
         for l in f:
-            if len(l) <= 1500:
+            if len(l) <= 3000:
                 i, _, c = l.rstrip("\n").partition(" ")
                 if i in outs and c.startswith("H "):
                     cands.append((i, c))
+    # histories with concurrent batches are accepted by linearisation in the runner, not re-evaluated here
+    cands = [(i, c) for i, c in cands if "&" not in c]
     step = max(1, len(cands) // want)
     goals = []
-    for i, c in cands[::step]:
-        g = _vm_goal(i, c, outs[i])
-        if g:
-            goals.append((i, g))
-        if len(goals) >= want:
-            break
+    for off in range(step):          # a spread first, then the rest until the sample is full
+        for i, c in cands[off::step]:
+            if len(goals) >= want:
+                break
+            g = _vm_goal(i, c, outs[i])
+            if g:
+                goals.append((i, g))
     vdir = os.path.join(build, "vm")
     os.makedirs(vdir, exist_ok=True)
     vf = os.path.join(vdir, "C08_cases.v")
